@@ -20,7 +20,7 @@ TRUSTED = ["numpy indexing/moveaxis/unique/eye/split are what the list model giv
 ASSUMPTIONS = ["inputs are small dyadic rationals; float test ratios in the correspondence are dyadic so that time_len*test_size is exact "
                "(the oracle also uses arbitrary float ratios)",
                "map generators: n_timesteps <= 10 and trajectories with |value| <= 1e3 (float64 round-off stays far below the 1e-9 tolerance)",
-               "narma: x0 is given as a column (k,1) (or left to its default), length <= n_timesteps + order"]
+               "narma: x0 is given as a column (k,1), a 1-D array/list of k values, or left to its default; k <= n_timesteps + order"]
 
 WORDS = ["a", "b", "B", "ab", "aB", "a1", "Z", "_x", "10", "9", "cat", "ca", "dog", "Dog", "zz", "A"]
 
@@ -83,8 +83,15 @@ def gen_forecast(rng, dims, exact_ratio=True, in_range=False):
         axis_arg = axis - ndim          # negative axis
     else:
         axis_arg = axis
-    return {"kind": "fc", "ndim": ndim, "axis": axis_arg, "forecast": forecast,
-            "ts": gen_ts(rng, shape[axis], forecast, exact_ratio, in_range), "series": series}
+    ts = gen_ts(rng, shape[axis], forecast, exact_ratio, in_range)
+    # forecast / integer test sizes may be numpy integers (signed or unsigned): same meaning as the Python int
+    ftype = rng.choice([None, None, None, "uint8", "uint16", "int64", "int32"])
+    if ts is not None and ts[0] == "int":
+        tt = rng.choice([None, None, "int64", "int32", "uint8"])
+        if tt is not None and not (tt.startswith("u") and ts[1] < 0):
+            ts = ts + [tt]
+    return {"kind": "fc", "ndim": ndim, "axis": axis_arg, "forecast": forecast, "ftype": ftype,
+            "ts": ts, "series": series}
 
 
 def gen_labels(rng, n, typ):
@@ -156,7 +163,7 @@ def gen_map(rng, which):
         k = rng.randint(1, min(order + 2, n + order))
         x0 = [str(Fraction(rng.randint(-8, 8), 8)) for _ in range(k)]
     return {"kind": "narma", "n": n, "order": order, "par": par, "u": u, "x0": x0,
-            "x0form": rng.choice(["nested", "array"]), "uform": rng.choice(["col", "col", "flat"])}
+            "x0form": rng.choice(["nested", "array", "flat", "flat_array"]), "uform": rng.choice(["col", "col", "flat"])}
 
 
 def gen_cases(rng, n, oracle=False):
@@ -185,8 +192,12 @@ def ts_arg(ts):
     if ts is None:
         return None
     if ts[0] == "int":
-        return int(ts[1])
+        return getattr(np, ts[2])(ts[1]) if len(ts) > 2 and ts[2] else int(ts[1])
     return float(Fraction(ts[1])) if "/" in ts[1] or "." not in ts[1] else float(ts[1])
+
+
+def forecast_arg(c):
+    return getattr(np, c["ftype"])(c["forecast"]) if c.get("ftype") else int(c["forecast"])
 
 
 def label_array(labels, typ):
@@ -210,7 +221,7 @@ def run_impl(c):
     if k in ("fc", "fc_err"):
         s = farr(c["series"])
         try:
-            res = ds.to_forecasting(s, forecast=c["forecast"], axis=c["axis"], test_size=ts_arg(c["ts"]))
+            res = ds.to_forecasting(s, forecast=forecast_arg(c), axis=c["axis"], test_size=ts_arg(c["ts"]))
         except ValueError as e:
             if k == "fc_err":
                 return {"rejected": True}
@@ -259,7 +270,8 @@ def run_impl(c):
         kw = {}
         if c["x0"] is not None:
             col = [[float(F(v))] for v in c["x0"]]
-            kw["x0"] = np.array(col) if c["x0form"] == "array" else col
+            flat = [float(F(v)) for v in c["x0"]]       # documented shape (init_steps,): one value per timestep
+            kw["x0"] = {"array": np.array(col), "nested": col, "flat": flat, "flat_array": np.array(flat)}[c["x0form"]]
         out = ds.narma(c["n"], order=c["order"], a1=a1, a2=a2, b=b, c=cc, u=u, **kw)
         return {"out": out.tolist(), "shape": list(out.shape)}
     raise ValueError(k)
@@ -381,7 +393,7 @@ def correspondence(ctx):
     evaluated = len(cases) - dist.get("skipped-diverging", 0)
     return {"evaluations": evaluated, "distinct_nontrivial": len(nt),
             "rule": "seeded scenarios: to_forecasting on 1-D/2-D series (time axis 0/1, forecast 1-3, test_size None/int incl. 0, negative, "
-                    "too large/dyadic ratio, a few rejected ratios), one_hot_encode on int/str/bool labels (list, array, column, list of "
+                    "too large/dyadic ratio; forecast and int test sizes also as numpy signed/unsigned integers, a few rejected ratios), one_hot_encode on int/str/bool labels (list, array, column, list of "
                     "sequences, (n,m) and (n,m,1) grids), logistic/Henon (n<=10), narma (order 1-4, n<=10, supplied u and x0); "
                     "non-trivial = every returned part non-empty with >=2 distinct values / >=2 classes and unsorted labels or >=2 sequences / "
                     "n>=3 with a non-zero value after the initial condition; distinct by scenario text",
@@ -411,7 +423,8 @@ def _judge_fc(c):
     ax = c["axis"]
     n, f = s.shape[ax], c["forecast"]
     ts = ts_arg(c["ts"])
-    res = ds.to_forecasting(s, forecast=f, axis=ax, test_size=ts)
+    tsv = int(ts) if (c["ts"] is not None and c["ts"][0] == "int") else ts
+    res = ds.to_forecasting(s, forecast=forecast_arg(c), axis=ax, test_size=ts)
     res = [np.asarray(p) for p in res]
     if len(res) == 2:
         (X, y), Xt, yt = res, None, None
@@ -438,9 +451,9 @@ def _judge_fc(c):
             return _viol("forecast:alignment", "target row %d is not row %d+forecast of the series" % (i, i), c,
                          np.take(s, i + f, axis=ax).tolist(), np.take(yf, i, axis=ax).tolist())
     # requested sizes (only when the request can be met: 1 <= test rows <= n - forecast)
-    if c["ts"] is not None and c["ts"][0] == "int" and 1 <= ts <= m:
-        if k != ts:
-            return _viol("forecast:split-size", "test part does not have the requested number of rows", c, ts, k)
+    if c["ts"] is not None and c["ts"][0] == "int" and 1 <= tsv <= m:
+        if k != tsv:
+            return _viol("forecast:split-size", "test part does not have the requested number of rows", c, tsv, k)
     if c["ts"] is not None and c["ts"][0] == "ratio":
         want = Fraction(ts) * n
         if want + Fraction(1, 2) <= m - 1 and abs(k - want) > Fraction(1, 2) + Fraction(1, 10 ** 9):
@@ -539,6 +552,28 @@ def _judge_map(c):
 
 
 def _judge(c):
+    v = _judge0(c)
+    if v is None:
+        return None
+    k = c["kind"]
+    if k == "fc":
+        # does the same call with plain Python ints satisfy the property?  then the defect is the numpy-integer handling
+        ts = c["ts"]
+        plain = dict(c, ftype=None, ts=(ts[:2] if ts is not None and ts[0] == "int" else ts))
+        if plain != c and _judge0(plain) is None:
+            if c.get("ftype") and _judge0(dict(c, ftype=None)) is None:
+                return dict(v, key="forecast:numpy-int-forecast",
+                            what="forecast given as numpy %s differs from the same Python int: %s" % (c["ftype"], v["what"]))
+            return dict(v, key="forecast:numpy-int-test-size",
+                        what="integer test_size given as numpy %s differs from the same Python int: %s" % (ts[2], v["what"]))
+    if k == "narma" and c.get("x0form") in ("flat", "flat_array") and v["key"] == "narma:exception":
+        if _judge0(dict(c, x0form="array")) is None:
+            return dict(v, key="narma:x0-1d-rejected",
+                        what="x0 of the documented shape (init_steps,) is rejected although the (k,1) column form works: %s" % v["what"])
+    return v
+
+
+def _judge0(c):
     """Decide the property's statement directly on the real code (no Coq model involved)."""
     k = c["kind"]
     try:
